@@ -221,7 +221,10 @@ int main(int argc, char** argv) {
     opno++;
     memset(&req, 0, sizeof req);
 #define IS(name, n) (!strcmp(w[0], name) && nw == (n))
-    if (IS("open", 5)) {
+    if (IS("usleep", 2)) {          /* pacing only (probe for submission/wake-up races); prints nothing route-specific */
+      usleep((useconds_t) atoi(A(1)));
+      puts("usleep");
+    } else if (IS("open", 5)) {
       int fl = parse_flags(A(3)); int md = (int) strtol(A(4), NULL, 8);
       if (mode == POSIX) r = perr(open(A(2), fl | O_CLOEXEC, md));
       else { r = fin(uv_fs_open(loop, &req, A(2), fl, md, CB), &req); uv_fs_req_cleanup(&req); }
